@@ -22,6 +22,7 @@ import itertools
 import json
 import multiprocessing as mp
 import os
+import signal
 import sys
 import time
 import traceback
@@ -68,9 +69,34 @@ def _eval_chunk(modname, fnname, chunk):
         "sample": None,
         "sets": {},
     }
+    limit = int(os.environ.get("VERIF_CASE_TIMEOUT", "600"))
+
+    class _CaseTimeout(BaseException):
+        pass
+
+    def _on_alarm(signum, frame):
+        raise _CaseTimeout()
+
+    try:
+        signal.signal(signal.SIGALRM, _on_alarm)
+    except ValueError:
+        limit = 0
     for case in chunk:
         try:
-            rec = fn(case)
+            if limit:
+                signal.alarm(limit)
+            try:
+                rec = fn(case)
+            finally:
+                if limit:
+                    signal.alarm(0)
+        except _CaseTimeout:
+            # a case (block) that does not come back: report it instead of hanging the whole check
+            rec = {
+                "out": "CASE-TIMEOUT",
+                "nt": None,
+                "viol": [{"sig": {"kind": "case-timeout"}, "case": case, "detail": {"why": f"the case did not finish within {limit} s (hang in the implementation?)"}}],
+            }
         except Exception as e:  # harness bug: never hide it
             rec = {
                 "out": "HARNESS-EXC",
